@@ -134,6 +134,9 @@ def check_concrete(contract, cfg, pyfn, args, kwargs, wrap_hook=None):
         pre_ok = True
     if not pre_ok:
         return ('skipped', None), []
+    # module-level mutable state of the function's module (it outlives the call)
+    fglob = getattr(getattr(pyfn, 'py_func', pyfn), '__globals__', {})
+    gstate = {k: repr(v) for k, v in fglob.items() if isinstance(v, (dict, list, set)) and not k.startswith('__') and len(v) <= 256}
     try:
         r = pyfn(*args, **kwargs)
         outcome = ('ret', r)
@@ -161,6 +164,9 @@ def check_concrete(contract, cfg, pyfn, args, kwargs, wrap_hook=None):
     else:
         if acc:
             viol.append({'label': 'accepts:no-raise-on-accepted-domain', 'detail': 'raised %s on an accepted input' % outcome[1]})
+    for k, before_repr in gstate.items():
+        if k in fglob and repr(fglob[k]) != before_repr:
+            viol.append({'label': 'frame:no-write-to-module-state:' + k, 'detail': 'module-level %s was modified by the call' % k})
     # frame
     for p, t in tensors_in(dict(env)):
         if p not in before:
@@ -181,6 +187,8 @@ def to_json(v):
         return {'__tensor__': v.tolist(), 'dtype': str(v.dtype).replace('torch.', ''), 'shape': list(v.shape)}
     if isinstance(v, numpy.ndarray):
         return {'__ndarray__': v.tolist(), 'dtype': str(v.dtype), 'shape': list(v.shape)}
+    if hasattr(v, 'to_json') and not isinstance(v, (torch.Tensor, numpy.ndarray)):
+        return v.to_json()
     if isinstance(v, (list, tuple)):
         return {'__seq__': [to_json(x) for x in v], 'tuple': isinstance(v, tuple)}
     if isinstance(v, dict):
